@@ -3,6 +3,7 @@ package props
 import (
 	"fmt"
 	"github.com/go-kid/ioc/syslog"
+	"os"
 	"reflect"
 	"strings"
 
@@ -14,12 +15,18 @@ import (
 // C16 Placeholders resolve to the configured value, else the default, and terminate.
 type c16 struct{}
 
-func init() { core.Register(c16{}) }
+func init() {
+	core.Register(c16{})
+	os.Setenv("VERIF_AMBIENT", "from-the-process-environment")
+	os.Setenv("VERIF", "from-the-process-environment")
+}
+
+var c16Ambient = []string{"home", "path", "pwd", "verif.ambient", "verif-ambient", "verif_ambient", "VERIF_AMBIENT", "verif.other"}
 
 func (c16) ID() string    { return "C16" }
 func (c16) Level() string { return "exploration" }
 func (c16) Rule() string {
-	return "seeded tag texts from a grammar (literal chunks, ${k}, ${k:default}, placeholders nested inside another placeholder's key, 1..4 placeholders per tag, repetitions) x seeded configurations (present scalar keys, absent keys, keys holding an empty map / empty list, values that themselves contain placeholders, reference cycles of length 1..3 incl. growing ones like a: \"x${a}\") on value / prop / prefix / wire tags of reflect.StructOf holders. Oracle (i): an independent model resolver (leftmost-innermost scan, key/default split at the first ':', present = non-nil and not an empty collection, own cycle detection) computes the replacement text T'; when T' is not type-sniffable the string field must hold exactly T' (prefix: the value at path T'; wire: the component named T'); when T' is sniffable the field is compared with a twin field tagged with the literal T' in a second start. Oracle (ii): for every configuration, cyclic or not, App.Run must return (error or value) within a step budget on Binder.Get calls (20000) - decided in logical steps; a panic is a violation. non-trivial = >= 2 placeholders, or nesting, or a configured value containing a placeholder, or a cycle; distinct = (tag text, configuration signature); a retried family: lazy component whose first creation fails after tag processing, key changed with Set, second attempt must resolve against the current configuration (value tags and placeholder-carrying prefix paths); other-tags family (user-defined tag, logger tag) and early family (components created before the refresh); defaults with blanks; configured values carrying expressions"
+	return "seeded tag texts from a grammar (literal chunks, ${k}, ${k:default}, placeholders nested inside another placeholder's key, 1..4 placeholders per tag, repetitions) x seeded configurations (present scalar keys, absent keys, keys holding an empty map / empty list, values that themselves contain placeholders, reference cycles of length 1..3 incl. growing ones like a: \"x${a}\") on value / prop / prefix / wire tags of reflect.StructOf holders. Oracle (i): an independent model resolver (leftmost-innermost scan, key/default split at the first ':', present = non-nil and not an empty collection, own cycle detection) computes the replacement text T'; when T' is not type-sniffable the string field must hold exactly T' (prefix: the value at path T'; wire: the component named T'); when T' is sniffable the field is compared with a twin field tagged with the literal T' in a second start. Oracle (ii): for every configuration, cyclic or not, App.Run must return (error or value) within a step budget on Binder.Get calls (20000) - decided in logical steps; a panic is a violation. non-trivial = >= 2 placeholders, or nesting, or a configured value containing a placeholder, or a cycle; distinct = (tag text, configuration signature); a retried family: lazy component whose first creation fails after tag processing, key changed with Set, second attempt must resolve against the current configuration (value tags and placeholder-carrying prefix paths); other-tags family (user-defined tag, logger tag) and early family (components created before the refresh); defaults with blanks; configured values carrying expressions; prop keys spelled by placeholders at both ends (indirection); keys spelled like variables of the process environment (configured and not)"
 }
 func (c16) Assumptions() []string {
 	return []string{
@@ -145,6 +152,12 @@ func genC16Config(c *core.Ctx) c16Cfg {
 	t["env"] = []string{"dev", "prod"}[c.Rng.Intn(2)]
 	t["srv"] = map[string]any{"dev": map[string]any{"host": "h-dev"}, "prod": map[string]any{"host": "h-prod"}}
 	t["comp"] = []string{"pa", "pab"}[c.Rng.Intn(2)]
+	// keys whose values spell (parts of) other keys: indirection
+	t["ptr"] = fmt.Sprintf("k%d", 1+c.Rng.Intn(7))
+	t["sec"], t["fld"] = "srv", "host"
+	if c.Rng.Intn(2) == 0 {
+		t["verif"] = map[string]any{"ambient": "cfg-ambient", "other": "cfg-other"}
+	}
 	for i := 1; i <= 6; i++ {
 		k := fmt.Sprintf("k%d", i)
 		switch c.Rng.Intn(10) {
@@ -211,6 +224,11 @@ func genC16Text(c *core.Ctx, depth int) string {
 			fallthrough
 		default:
 			k := fmt.Sprintf("k%d", 1+c.Rng.Intn(7)) // k7 never exists
+			if c.Rng.Intn(12) == 0 {
+				// keys that happen to be spelled like variables of the process environment (HOME, PATH, PWD and
+				// VERIF_AMBIENT, which the worker sets itself): the configuration is the only source of values
+				k = c16Ambient[c.Rng.Intn(len(c16Ambient))]
+			}
 			if c.Rng.Intn(2) == 0 {
 				sb.WriteString("${" + k + "}")
 			} else {
@@ -256,8 +274,13 @@ func (p c16) Run(c *core.Ctx) {
 		if c.Rng.Intn(2) == 0 {
 			inner = k + ":" + c16Defaults[c.Rng.Intn(len(c16Defaults))]
 		}
-		if c.Rng.Intn(3) == 0 {
+		switch c.Rng.Intn(6) {
+		case 0:
 			inner = "srv.${env}.host"
+		case 1:
+			// the key of the shorthand spelled by placeholders at both of its ends
+			inner = []string{"${ptr}", "${sec}.${env}.${fld}", "${sec}.dev.${fld:host}", "${k7:srv}.${env}.${k7:host}", "${ptr}:${k7:dflt}", "${k7:${ptr}}"}[c.Rng.Intn(6)]
+			c.Count("prop_keys_spelled_by_placeholders_at_both_ends", 1)
 		}
 		full = "${" + inner + "}"
 		tag = fmt.Sprintf("prop:%q", inner+",required=false")
